@@ -273,6 +273,9 @@ func checkC15(cx *Ctx, r *Report) {
 							}
 						}
 						key := w.FuncKey(fn) + ":" + shortCallee(n) + "(" + fx.T(fx.path(x.Common().Args[0])) + ")"
+						if bad != "" && localOnly(fn, x.Common().Args[0]) {
+							bad = "" // clear(values) on an object the enclosing function has just built (see localOnly)
+						}
 						if bad != "" {
 							r.Fail("R-EFFECT", key, w.InstrPos(x), fmt.Sprintf("%s re-arranges / overwrites in place %s: concurrent requests share it", shortCallee(n), bad))
 						} else {
